@@ -1,4 +1,5 @@
 """C18, bounded part: printed paths are valid override paths; flag directives apply in order."""
+import ast
 import copy
 import itertools
 import fiddle as fdl
@@ -10,8 +11,19 @@ from fiddle._src.absl_flags import utils as futils
 from layerb import canon, common, pool, gen, flagmod
 
 
+def f_annotated(name: str = 'n', note='x', path: str = '', both: str = '', *, count: int = 0, label: 'str' = ''):
+  return (name, note, path, both, count, label)
+
+
 def configs():
   P = {}
+  # parameters annotated `str` holding strings whose repr needs escapes or either quote kind
+  P['annotated-str-escapes'] = lambda: fdl.Config(
+      f_annotated, name='first line\nsecond line', note='tab\there', path='C:\\ckpt\\run',
+      both='it\'s "quoted"', count=3, label='\\d+\t\x00')
+  P['annotated-str-plain'] = lambda: fdl.Config(
+      pool.fc, fdl.Config(f_annotated, name='run-1', path="it's", both='"q"', label="'"),
+      q={'s': fdl.Config(f_annotated, name='123', path='None', both='[1]', label=' padded ')})
   P['flat'] = lambda: fdl.Config(pool.fb, 1, y='two')
   P['nested'] = lambda: fdl.Config(pool.fc, fdl.Config(pool.fb, 1.5), q=None, r=True)
   P['dict-str-keys'] = lambda: fdl.Config(pool.fc, {'a': 1, 'b_c': 'x'}, q={'k': fdl.Config(pool.fb, 2)})
@@ -131,8 +143,45 @@ def check_config(name):
       if canon.canon(target) != canon.canon(want):
         bad(f'override {pstr}={nv!r} did not set exactly that leaf', 'set-wrong')
         break
+  # writing a printed leaf back as path=repr(value): onto the configuration itself (nothing changes)
+  # and onto a copy whose leaf was first overwritten with something else (the leaf comes back)
+  for pstr, val in flat.items():
+    if pstr not in exp_paths:
+      continue
+    p, v, in_tuple = exp_paths[pstr]
+    if in_tuple or isinstance(v, fdl.Buildable) or v is fdl.NO_VALUE:
+      continue
+    try:
+      if ast.literal_eval(repr(v)) != v or type(ast.literal_eval(repr(v))) is not type(v):
+        continue
+    except Exception:   # pylint: disable=broad-except
+      continue          # not a Python literal: outside the quantifier
+    n += 1
+    for prepare in ('as-is', 'overwritten-first'):
+      target = copy.deepcopy(cfg)
+      try:
+        if prepare == 'overwritten-first':
+          futils.set_value(target, f'{pstr}=None')
+        futils.set_value(target, f'{pstr}={v!r}')
+      except Exception as e:   # pylint: disable=broad-except
+        bad(f'writing the printed leaf back, {pstr}={v!r}, raised {type(e).__name__}: {e}', 'write-back')
+        break
+      if isinstance(v, (list, dict, set)):
+        # a container written back is a new object (sharing with other places ends): compare values
+        same = printing.as_dict_flattened(target) == flat
+      else:
+        same = canon.canon(target) == canon.canon(cfg)
+      if not same:
+        got = None
+        try:
+          got = daglish.follow_path(target, p)
+        except Exception:   # pylint: disable=broad-except
+          pass
+        bad(f'writing the printed leaf back as {pstr}={v!r} ({prepare}) does not reproduce the configuration: '
+            f'the leaf is now {got!r}', 'write-back')
+        break
   # as_str_flattened: one line per leaf, `path = value`
-  lines = [l for l in printing.as_str_flattened(cfg).splitlines() if '<[unset' not in l]
+  lines = [l for l in printing.as_str_flattened(cfg, include_types=False).splitlines() if '<[unset' not in l]
   got_paths = sorted(l.split(' = ', 1)[0] for l in lines)
   if got_paths != sorted(flat):
     bad(f'as_str_flattened lists {got_paths}, as_dict_flattened {sorted(flat)}', 'str-lines')
